@@ -148,7 +148,7 @@ module Path = struct
           let r = one os s in
           print_endline (if os = Linux then r ^ " || " ^ r else r)
       | ["two"; os; a; c] -> let os = os_of os in let a = str_of_tok a and c = str_of_tok c in
-          print_endline (if os = Linux then two os a c true ^ " || " ^ two os a c true else two os a c true)
+          print_endline (if os = Linux then two os a c false ^ " || " ^ two os a c false else two os a c false)
       | ["pi"; os; path; np] -> print_endline (pi (os_of os) (str_of_tok path) (str_of_tok np))
       | _ -> print_endline "BADLINE")
 end
